@@ -1,4 +1,5 @@
 import Txtpp.Lemmas.SinkFacts
+import Txtpp.Lemmas.VerifyProject
 /-!
 # Property C06 — verify passes exactly when outputs are up to date, and is read-only
 -/
@@ -35,6 +36,30 @@ theorem verify_pass_preserves (cfg : Cfg) (hm : cfg.mode = .verify) (src : Path)
     (fs1 : FS) (lines : List (List Char)) (readOk : Bool) (hI : I fs1) :
     PassPost I (ppPass (fileWorld cfg src.dropLast (joinPath src)) cfg.mode le first cfg.trailing fs1 lines readOk) :=
   ppPass_fs_inv cfg src.dropLast (joinPath src) I (by rw [hm]; exact hp) le first fs1 lines readOk hI
+
+/-- Project level (abstract in what a pass computes, for every dependency graph and schedule): in a
+verify run over existing outputs `E` — the pass of a file fails exactly when its existing output
+differs from the fresh output computed from the existing outputs of its dependencies — success
+implies that every file in the dependency closure of the inputs was verified and holds exactly
+the value a build would write now (`seqVal` = processing the files one at a time) … -/
+theorem verify_success_means_uptodate {C : Type} (w : Coord.World) (R : Coord.Sem C) (hR : Coord.RenderLocal w R)
+    (E : Coord.File → C) (hV : Coord.VerifyWorld w R E) (inputs : List Coord.File)
+    (out0 : Coord.File → Coord.OutState C) (x : Coord.WSt C) (h : Coord.WReach w R inputs out0 x)
+    (hq : x.st.pool = []) (hno : ¬ Coord.Leftover x.st) :
+    (∀ f, (∃ i ∈ inputs, Coord.Path w.deps i f) → f ∈ x.st.dm.fin) ∧
+    ∀ f ∈ x.st.dm.fin, E f = Coord.seqVal R x.st.dm.fin f :=
+  Coord.verify_success_uptodate w R hR E hV inputs out0 x h hq hno
+
+/-- … and conversely, when every output in the closure is up to date no task of the run reports an
+error, while any mismatch that is reached is an error -/
+theorem verify_uptodate_means_no_error {C : Type} (w : Coord.World) (R : Coord.Sem C) (E : Coord.File → C)
+    (hV : Coord.VerifyWorld w R E) (inputs : List Coord.File) (s : Coord.St) (h : Coord.Reach w inputs s)
+    (hup : ∀ f, (∃ i ∈ inputs, Coord.Path w.deps i f) → E f = R.render f E) (t : Coord.Task) (ht : t ∈ s.pool) :
+    w.result t ≠ .err := Coord.verify_uptodate_never_errs w R E hV inputs s h hup t ht
+
+theorem verify_mismatch_fails_its_pass {C : Type} (w : Coord.World) (R : Coord.Sem C) (E : Coord.File → C)
+    (hV : Coord.VerifyWorld w R E) (f : Coord.File) (hm : E f ≠ R.render f E) : w.result (.pp f false) = .err :=
+  Coord.verify_mismatch_is_err w R E hV f hm
 
 example : verifyStream [1, 2, 3] [[1], [2, 3]] = true := by decide
 example : verifyStream [1, 2, 3] [[1], [2]] = false := by decide
